@@ -165,7 +165,9 @@ def run(tier, seed):
     for idx, (label, b, L, R) in enumerate(cases):
         for r in res_list:
             ratio = L / r
-            if ratio > (40000 if tier == "thorough" else 4000) or r > R:
+            # quick: up to 4000 segments per trace, and up to 20000 for full circles and three-turn helices (long jobs)
+            cap = 40000 if tier == "thorough" else (20000 if label.startswith(("circle", "helix")) and "turns1" not in label else 4000)
+            if ratio > cap or r > R:
                 continue
             items.append(("speed", idx, r, "clockwise" if idx % 2 else "counter", "absolute", None, tier))
             if ratio <= 400:
